@@ -1,7 +1,7 @@
 """Throwaway feasibility spike for E4: real loky ProcessPoolExecutor over a
 simulated OS (threads-as-processes, sim pipes, sim locks) under a baton scheduler."""
 import sys, os, random, time as _rtime, threading, _thread, hashlib, collections, types, pickle, queue as _queue
-sys.path.insert(0, "/repo")
+sys.path.insert(0, os.environ.get("VERIF_REPO", "/repo"))
 import multiprocessing as mp
 import multiprocessing.queues as mpq
 import multiprocessing.connection as mpc
